@@ -1,6 +1,6 @@
 """R-JSON: the JSON writer's escaping table equals RFC 8259 over all 256 bytes, one writer, functions rejected."""
 from .. import hir as H
-from ..mir import strip, show, short_path, contains
+from ..mir import strip, show, short_path, contains, string_write_kind
 from ..report import ok, bad, info, site, Floor
 
 RULE = "R-JSON"
@@ -207,7 +207,7 @@ def check_writer(prog):
                 tt = f.term(r)
                 if isinstance(tt, dict) and tt["k"] == "call" and not f.is_cleanup(r):
                     c = tt.get("res") or tt.get("fn") or ""
-                    if c.startswith("alloc::string::String::push") or c.endswith("escape_string_json_buf") or c.endswith("manifest_json_ex_buf"):
+                    if string_write_kind(tt) or c.endswith("escape_string_json_buf") or c.endswith("manifest_json_ex_buf"):
                         writes.append(short_path(c))
             if writes:
                 obs.append(bad(RULE, key, site(f), "the Val::Func arm can write output (%s) instead of failing" % writes))
@@ -225,7 +225,7 @@ def check_writer(prog):
         if f.is_cleanup(b):
             continue
         c = t.get("res") or t.get("fn") or ""
-        if c == "alloc::string::String::push_str":
+        if string_write_kind(t) in ("str", "fmt"):
             d = strip(f.desc_op(t["args"][0]))
             if d == ("param", PAD):
                 a1 = strip(f.desc_op(t["args"][1]))
